@@ -106,6 +106,13 @@ func blockOfKind(kind byte, d *world.Decl, seed string) simeth.BlockSpec {
 	switch kind {
 	case 'a':
 		return simeth.BlockSpec{Txs: []simeth.TxSpec{{Logs: []*simeth.Log{lg(seed+"/0", addrA)}, Traces: []*simeth.Trace{tr(seed + "/0")}}}}
+	case 'z': // one tx: four logs of another event, then one matching log (log index 4: no row key in common with kinds a and c)
+		var logs []*simeth.Log
+		for i := 0; i < 4; i++ {
+			logs = append(logs, mkLog(decoyOther, addrA, fmt.Sprintf("%s/d%d", seed, i)))
+		}
+		logs = append(logs, lg(seed+"/0", addrA))
+		return simeth.BlockSpec{Txs: []simeth.TxSpec{{Logs: logs, Traces: []*simeth.Trace{tr(seed + "/0")}}}}
 	case 'c':
 		return simeth.BlockSpec{Txs: []simeth.TxSpec{
 			{Logs: []*simeth.Log{lg(seed+"/0", addrA), lg(seed+"/1", addrA)}, Traces: []*simeth.Trace{tr(seed + "/0")}},
